@@ -88,7 +88,7 @@ class EAM_Potential_Builder(object):
 
     # Create the zero functions for null_embed_species.
     null = zero()
-    for s in null_embed_species:
+    for s in sorted(null_embed_species):
       embed_dict[s] = null
 
 
